@@ -1,5 +1,7 @@
 package main
 
+// verif:tags verif_c04
+
 // C04: every searching player answers a live position with a legal move.
 //
 // Decided by the DIRECT ORACLE on the implementation: for every generated live position and every
